@@ -113,8 +113,13 @@ func ZZ_C19_H1() {
 		cut := zz.Range("cut", 1, len(wire)-1)
 		wire = wire[:cut]
 	}
-	nc := zz.NewNetConn(wire)
 	fault := zz.Choose("fault", 3) // 0 none, 1 read error, 2 write error
+	if !truncate && fault == 0 {
+		// a few stray bytes after the last message (a client that ends its POST with CRLF), then
+		// the peer closes: no request, so no further start/finish pair
+		wire = append(wire, []string{"", "\r\n", "\r"}[zz.Choose("stray", 3)]...)
+	}
+	nc := zz.NewNetConn(wire)
 	// the failing operation index is a symbolic integer: the executor forks lazily at each I/O
 	// operation on "is this the one that fails?", decided by the solver
 	switch fault {
@@ -184,5 +189,8 @@ func ZZ_C19_H1() {
 		}
 	}
 	zz.Assert("each-handled-request-bracketed-by-its-own-pair", ok)
+	// no pair without a request: at most one start per request the peer sent (stray line ends
+	// before the connection closes are not a request)
+	zz.Assert("no-pair-without-a-request", len(tr.log) <= 2*len(uris))
 	zz.Assert("stages-ordered-and-finished", tr.stagesOK)
 }
